@@ -237,7 +237,7 @@ fn base_datagrams() -> Vec<(String, Vec<u8>)> {
     let mut ev4 = a98.clone();
     ev4[80..84].copy_from_slice(&4i32.to_be_bytes());
     v.push(("announce-unknown-event".into(), ev4));
-    for n in [1usize, 2, 22, 23, 24, 25, 70, 71, 74, 100, 255] {
+    for n in [1usize, 2, 22, 23, 24, 25, 70, 71, 74, 100, 255, 256, 257, 300, 326, 408] {
         v.push((format!("scrape-{}", n), ref_encode_request(&RefRequest::Scrape { connection_id: 0, transaction_id: 0, info_hashes: (0..n).map(|i| scrape_hash(i % N_SCRAPE_TORRENTS)).collect() })));
     }
     let s2 = ref_encode_request(&RefRequest::Scrape { connection_id: 0, transaction_id: 0, info_hashes: vec![scrape_hash(3), scrape_hash(1)] });
@@ -498,11 +498,88 @@ fn run_backend(run: &mut Run, uring: bool, workers: usize, stale: bool, thorough
     (cases.len() as u64, outcomes.len() as u64)
 }
 
+/// Datagrams from source port 0 through a raw IPPROTO_UDP socket; a second raw socket sees every UDP datagram the
+/// host receives on loopback, so a reply towards port 0 would be observed. Returns None if raw sockets are unavailable.
+fn port_zero_probe(uring: bool) -> Option<Result<u64, String>> {
+    use std::os::fd::AsRawFd;
+    let raw_tx = socket2::Socket::new(socket2::Domain::IPV4, socket2::Type::RAW, Some(socket2::Protocol::UDP)).ok()?;
+    let raw_rx = socket2::Socket::new(socket2::Domain::IPV4, socket2::Type::RAW, Some(socket2::Protocol::UDP)).ok()?;
+    raw_rx.set_read_timeout(Some(Duration::from_millis(50))).ok()?;
+    let mut config = Config::default();
+    config.network.use_io_uring = uring;
+    let t = UdpTracker::start(config, 1);
+    let dst: SocketAddr = SocketAddr::new(IpAddr::V4(Ipv4Addr::LOCALHOST), t.port);
+    let before = dump_fp(&t);
+    let mut v = t.validator.clone();
+    v.verif_set_seconds_since_start(0);
+    let cid = v.create_connection_id(CanonicalSocketAddr::new(SocketAddr::new(IpAddr::V4(Ipv4Addr::LOCALHOST), 0))).0.get();
+    let payloads_for = |h: u8| -> Vec<Vec<u8>> {
+        vec![
+            ref_encode_request(&RefRequest::Connect { transaction_id: 0x7001 }),
+            ref_encode_request(&RefRequest::Announce(RefAnnounce { connection_id: cid, transaction_id: 0x7002, info_hash: announce_hash(h), peer_id: [1; 20], downloaded: 0, left: 1, uploaded: 0, event: 2, ip: [0; 4], key: 0, num_want: 1, port: 4000 })),
+            ref_encode_request(&RefRequest::Scrape { connection_id: cid, transaction_id: 0x7003, info_hashes: vec![scrape_hash(1)] }),
+        ]
+    };
+    let mut sent = 0;
+    for (src_port, expect_reply) in [(0u16, false), (40_123u16, true)] {
+        let payloads = payloads_for(if src_port == 0 { 77 } else { 78 });
+        if src_port != 0 {
+            // before the positive control: the port-0 announce must not have created state
+            std::thread::sleep(Duration::from_millis(100));
+            if dump_fp(&t) != before {
+                return Some(Err("an announce from source port 0 with a valid connection id changed the swarm state".into()));
+            }
+        }
+        for p in &payloads {
+            // UDP header: source port, destination port, length, checksum 0 (= none, legal for IPv4)
+            let mut pkt = Vec::new();
+            pkt.extend_from_slice(&src_port.to_be_bytes());
+            pkt.extend_from_slice(&t.port.to_be_bytes());
+            pkt.extend_from_slice(&((8 + p.len()) as u16).to_be_bytes());
+            pkt.extend_from_slice(&[0, 0]);
+            pkt.extend_from_slice(p);
+            if raw_tx.send_to(&pkt, &dst.into()).is_err() {
+                return None;
+            }
+            sent += 1;
+            // sniff for 150 ms: any datagram from the tracker's port
+            let t0 = Instant::now();
+            let mut saw_reply = false;
+            while t0.elapsed() < Duration::from_millis(150) {
+                let mut buf = [std::mem::MaybeUninit::<u8>::uninit(); 2048];
+                if let Ok(n) = raw_rx.recv(&mut buf) {
+                    let b: Vec<u8> = buf[..n].iter().map(|x| unsafe { x.assume_init() }).collect();
+                    // IPv4 header + UDP header
+                    if b.len() >= 28 {
+                        let ihl = ((b[0] & 0x0f) as usize) * 4;
+                        if b.len() >= ihl + 8 {
+                            let sp = u16::from_be_bytes([b[ihl], b[ihl + 1]]);
+                            let dp = u16::from_be_bytes([b[ihl + 2], b[ihl + 3]]);
+                            if sp == t.port && dp == src_port {
+                                saw_reply = true;
+                            }
+                        }
+                    }
+                }
+            }
+            if saw_reply != expect_reply {
+                if expect_reply {
+                    // the positive control failed: sniffing does not work here
+                    return None;
+                }
+                return Some(Err(format!("a datagram from source port 0 ({} bytes) was answered towards port 0", p.len())));
+            }
+        }
+    }
+    let _ = raw_rx.as_raw_fd();
+    Some(Ok(sent))
+}
+
 pub fn main(args: &Args) -> ! {
     let mut run = Run::new(args, "exploration");
     run.set("rule", "datagram alphabet (connect shapes; announce x events / numwant extremes / port 0 / extension bytes / 97 bytes / unknown event; scrape x {1,2,22,23,24,25,70,71,74} hashes, 0 hashes, trailing bytes; unknown action; every truncation length; every single-bit flip of one announce and one scrape) x connection id {valid, valid for another source, far-future, forged, stale (tracker with max_connection_age 0)} x sources 127.0.0.1/.2, ::1, sent to real socket workers (mio and io_uring, 1 and 2 workers); every reply attributed by transaction id; absence established by a fence connect on the same socket; expectation from the independent BEP 15 decoder and a clone of the validator. distinct_nontrivial = distinct (datagram kind, outcome) pairs");
     run.assume("thread schedule inside the socket workers is not controlled; datagrams are fenced per socket");
-    run.assume("source port 0 is covered at parser / handler level (C12), not through a raw socket");
+    run.assume("source port 0: injected through a raw IPPROTO_UDP socket and sniffed when raw sockets are available (see source_port_zero in the coverage), otherwise covered at parser / handler level by C12");
     let th = args.tier.thorough();
     if args.replay.is_some() {
         eprintln!("replay: re-running the full alphabet (a datagram's verdict depends only on the datagram and the backend)");
@@ -520,6 +597,19 @@ pub fn main(args: &Args) -> ! {
         evals += e;
         outcomes += o;
     }
+    // source port 0
+    let mut port0 = "not available (raw sockets); covered at parser / handler level by C12".to_string();
+    for uring in [false, true] {
+        match port_zero_probe(uring) {
+            None => {}
+            Some(Ok(n)) => {
+                evals += n;
+                port0 = "raw-socket injection with sniffed positive control".into();
+            }
+            Some(Err(e)) => run.violation(format!("udp/{}/reply-to-source-port-0", if uring { "io_uring" } else { "mio" }), e, json!({"backend": if uring { "io_uring" } else { "mio" }})),
+        }
+    }
+    run.set("source_port_zero", port0);
     run.set("evaluations", evals);
     run.set("distinct_nontrivial", outcomes);
     run.set("exhaustive", true);
